@@ -265,7 +265,8 @@ func runC16(c *fw.Case) {
 		return
 	}
 	unc := c.Bool("c16.uncompressed") // store mode under test
-	dir := filepath.Join(c.Dir(), "store")
+	// the name of the store directory is the user's business: hidden, with blanks, ending in the chunk extension
+	dir := filepath.Join(c.Dir(), []string{"store", ".store", "store dir", "store.cacnk", ".cache/desync"}[c.T.DrawOptional(5, "c16.dirname", 0)])
 	os.MkdirAll(dir, 0755)
 	r := c.Rand("c16.seed")
 	var files []*c16File
@@ -346,6 +347,9 @@ func runC16(c *fw.Case) {
 			c.Fault("stored-chunk-corrupted")
 		case 7: // abandoned temporary file of a killed writer
 			rel := filepath.Join(id[:4], fmt.Sprintf(".tmp-cacnk%09d", r.IntN(1000000000)))
+			if c.ChanceAdded(1, 5, "tmp.hidden-dir") {
+				rel = filepath.Join(".old", rel) // a temporary file stays one wherever it lies below the store
+			}
 			write(rel, encode(data, unc)[:r.IntN(len(data)+1)%(len(encode(data, unc))+1)])
 			files = append(files, &c16File{rel: rel, kind: "tmp"})
 			c.Fault("writer-killed-leaving-temp-file")
